@@ -35,6 +35,9 @@ class Ctx:
         self.level = "model_checking"
         self.distinct = set()
         self.other_props = {}
+        # C06: genuine traffic must be handled as if the rejected messages had never arrived, so
+        # a lost text or a stalled key exchange in its (attacked) runs is its violation too
+        self.also_props = {"C06": {"C04", "C07"}}.get(pid, set())
         # projected fields that are visible through the public API for this property
         self.obs_state = {"C01": {"sess", "peer", "ms", "rev"}, "C18": {"ms"}, "C15": {"ttag", "otag"},
                           "C07": {"ms", "sess", "peer"}, "C03": {"ms"}, "C16": {"ver"}}.get(pid, set())
@@ -200,7 +203,7 @@ class Ctx:
     def classify(self, reports):
         for r in reports:
             if r["kind"] == "PROP":
-                if r["prop"] != self.pid:
+                if r["prop"] != self.pid and r["prop"] not in self.also_props:
                     self.other_props[(r["prop"], r["reason"])] = self.other_props.get((r["prop"], r["reason"]), 0) + 1
                     continue
                 self.add_finding(dict(kind="PROP", reason=r["reason"], trace=r["trace"], line=r["line"], ev=r["ev"], p=r["p"],
@@ -218,7 +221,7 @@ class Ctx:
         run, idx = vlib.run_of_line(f["trace"], f["line"])
         f["run"] = run
         f["idx"] = idx
-        kid = match_known(self.known, self.pid, f)
+        kid = match_known(self.known, {self.pid} | self.also_props, f)
         if kid:
             self.known_hits.setdefault(kid, []).append(f)
         else:
@@ -316,7 +319,7 @@ SIGS = {
 
 def match_known(known, pid, f):
     for e in known.get("open", []):
-        if e["property"] != pid:
+        if e["property"] not in pid:
             continue
         if e.get("reason") and e["reason"] != f["reason"]:
             continue
@@ -498,7 +501,62 @@ def c01(ctx):
     ctx.attack_catalogue("ake")
 
 
+def c15(ctx):
+    q = ctx.quick()
+    v3 = dict(PolA=2, PolB=2)
+    ctx.model("c15-model", dict(v3, Prelude=[dict(a="Query", p="A")], NetMode="bag", MaxFlight=4, MaxDup=2, MaxDrop=1), ["TagInv"])
+    for name in (("queryA", "both") if q else ("queryA", "both", "tag", "req", "refresh")):
+        pol, prelude = STARTS[name]
+        c = dict(pol, Prelude=prelude, MaxSend=0, MaxFlight=4)
+        ctx.export_tamper_validate("c15-ake-" + name, c, "ake", per_msg=30 if q else 0, allpos=not q, maxsched=8 if q else 40)
+        ctx.export_tamper_validate("c15-aker-" + name, c, "none", per_msg=8 if q else 30, maxsched=6 if q else 30, replace=True)
+    ctx.export_tamper_validate("c15-data", dict(PolA=2, PolB=3, Setup="ake", MaxSend=2, MaxFlight=2), "fifo-data", per_msg=12 if q else 0,
+                               allpos=not q, maxsched=40 if q else 300)
+    ctx.random_validate("data", 32 if q else 200, 40)
+    ctx.attack_catalogue("tags")
+
+
+def c16(ctx):
+    q = ctx.quick()
+    inv = ["VersionAllowed", "NoForbiddenOnWire", "HighestCommon", "NoLeak"]
+    ctx.model("c16-allpol-offer", dict(AllPol=True, MaxOffer=1, MaxFlight=4), inv)
+    ctx.model("c16-allpol-send", dict(AllPol=True, MaxSend=1, MaxFlight=4), inv, timeout=2400)
+    if not q:
+        ctx.model("c16-allpol-query", dict(AllPol=True, MaxQuery=1, MaxOffer=1, MaxFlight=4), inv, timeout=3000)
+    d = os.path.join(ctx.work, "nego")
+    os.makedirs(d, exist_ok=True)
+    import subprocess
+    n = vlib.NCPU
+    procs, traces = [], []
+    for i in range(n):
+        tf = os.path.join(d, "n-%02d.trace" % i)
+        traces.append(tf)
+        procs.append(subprocess.Popen([vlib.BIN, "negotiate", "-out", tf, "-seed", str(ctx.seed), "-shard", str(i), "-shards", str(n)]
+                                      + (["-sample", "640"] if q else []), stdout=subprocess.PIPE, text=True))
+    runs = 0
+    for pr in procs:
+        out = pr.communicate()[0]
+        if pr.returncode != 0:
+            raise Broken("negotiate driver failed")
+        for line in out.splitlines():
+            if line.startswith("RUN"):
+                runs += int(line.split("schedules=")[1].split()[0])
+            if line.startswith("PANIC"):
+                ctx.add_finding(dict(kind="PANIC", reason="panic in a public API call", trace=traces[0], line=1, ev="?", p="?"))
+    for tf in traces:
+        ctx.sched_of_trace[tf] = None
+    reports, lines = vlib.validate_traces(traces, ctx.kf)
+    ctx.events += lines
+    ctx.traces_validated += runs
+    ctx.schedules += runs
+    ctx.exhaustive = ctx.exhaustive and not q
+    ctx.samples.append(dict(note="policy pair x offer form runs", runs=runs))
+    ctx.classify(reports)
+
+
 TABLE = {
+    "C15": c15,
+    "C16": c16,
     "C01": c01,
     "C02": c02,
     "C06": c06,
